@@ -39,7 +39,7 @@ static void do_cancel(void) { dispatch_source_cancel(DS); if (!cancelled) { canc
 static _Bool hist_other_callout(u64 ctxt, u64 f) {
   if (f == FN_EVENT) {
     if (handler_depth) reentered = 1; handler_depth++; handler_runs++;
-    ASSERT(IR_LD64(TSD(ir_cur) + P_OFF_tsd_queue) == TQ, "the event handler runs on the source's target queue");
+    ASSERT(IR_LD64(TSD(ir_cur) + P_OFF_tsd_queue) == (TQ ? TQ : IR_LD64(DS + P_OFF_do_targetq)), "the event handler runs on the source's target queue");
     if (cancel_runs) handler_after_cancelh = 1;
     if (w_returned) handler_after_w = 1;
     if (cancelled && (cancel_in_handler || 1)) ran_after_cancel = ran_after_cancel | (cancel_in_handler);     /* cancelled from the handler (or from an item on the target queue): never again */
@@ -59,7 +59,11 @@ static _Bool hist_other_callout(u64 ctxt, u64 f) {
   return 0; }
 void harness(void) {
   ir_init_globals(); hist_threads_init(); ir_cur = 0;
+#ifdef ROOTQ
+  TQ = 0;                               /* no target given: the source targets the default-priority OVERCOMMIT global queue directly (no serial queue in between) */
+#else
   TQ = dispatch_queue_create(0, 0);
+#endif
   DS = dispatch_source_create(KIND == 0 ? G__dispatch_source_type_data_add : KIND == 1 ? G__dispatch_source_type_data_or : G__dispatch_source_type_data_replace, 0, 0, TQ);
   ASSERT(DS != 0, "source created");
   dispatch_source_set_event_handler_f(DS, FN_EVENT);
